@@ -326,21 +326,24 @@ def random_ops(desc, W):
                 if s2 is not None and h not in orphaned:
                     yield ["Init", h, False]
                     if W.last_out == ["unit"]:
+                        nlink = getattr(W, "nlink", 0)      # fresh names: a link must not alias a file written later
+                        W.nlink = nlink + 1
+                        tname, lout, lrel = "t%d.dat" % nlink, "l_out%d" % nlink, "l_rel%d" % nlink
                         data = bytes(rng.randrange(256) for _ in range(rng.randint(1, 5))).hex()
                         # (the target of the relative link is a name no other operation writes to: in the model the
                         # link is a file of its own)
-                        yield ["WriteFile", h, ["t.dat"], data]
+                        yield ["WriteFile", h, [tname], data]
                         out = bytes(rng.randrange(256) for _ in range(rng.randint(1, 5))).hex()
-                        yield ["Link", h, ["l_out"], out, "out", []]
+                        yield ["Link", h, [lout], out, "out", []]
                         if rng.random() < 0.6:
-                            yield ["Link", h, ["sub", "l_rel"], data, "rel", ["t.dat"]]
+                            yield ["Link", h, ["sub", lrel], data, "rel", [tname]]
                         before = len(W.handles)
                         yield ["Clone", s2, h]
                         if len(W.handles) > before:
                             new_group(before)
-                            yield ["ViaAppend", before, ["l_out"], "21", out + "21"]
+                            yield ["ViaAppend", before, [lout], "21", out + "21"]
                             if rng.random() < 0.5:
-                                yield ["ViaAppend", before, ["t.dat"], "7a", data + "7a"]
+                                yield ["ViaAppend", before, [tname], "7a", data + "7a"]
                             k = rng.choice(KEYS)
                             yield rng.choice([["Edit", h, [], ["set", k, typed(rng.choice(VALS[k]))]], ["Remove", h],
                                               ["Move", before, [i for i, r_ in enumerate(sess_root) if r_ == W.root_of(W.handles[h])][0]]])
@@ -896,6 +899,8 @@ def run_case(desc):
             if W is not None:
                 W.leave_all()
             os.chdir(cwd0)      # before the scratch directory is removed
+    if W is not None and getattr(W, "cwd_leaks", 0):
+        kinds.add("cwd-not-restored-after-with-job")
     body = "(mkCase3 %s %s)" % (L.ftab(), coq_list(steps, "step_C03"))
     return Case(L.wrap(body), desc, obs=log, nontrivial=(changes >= 2 and rekeys >= 1),
                 key=json.dumps([l[0] for l in log], sort_keys=True), kinds=sorted(kinds))
